@@ -359,6 +359,11 @@ def run_check(prop, tier, module_name, seed=0):
                                     % (ob.name, part, cex, r['detail'][:300]))
                 continue
             key = reason.split(' :: ')[0]
+            if key.startswith('HARNESS:'):
+                # the harness itself says it does not apply to this code (e.g. the library call it cuts with a recorder is
+                # no longer made where it used to be): it cannot decide - neither a pass nor a violation
+                inconclusive.append('%s[%s]: %s' % (ob.name, part, reason[:400]))
+                continue
             if key not in [v['key'] for v in violations]:
                 violations.append({'obligation': ob.name, 'partition': part, 'counterexample': cex,
                                    'reason': reason, 'key': key, 'solver_message': r['detail'][:1000]})
